@@ -363,6 +363,8 @@ def span_trace_walk(ck, F, rid="C06.R16"):
     problems = set()
     n = 0
     for p in PathEval(b).run():
+        if p.end == "unreachable":
+            continue            # the impossible discriminant of a two-variant enum
         cs = [(show(c[0]), c[1]) for c in p.conds]
         took = [v for t, v in cs if t.startswith("discr(next(")]
         if not took or took[0] != 1:
